@@ -42,16 +42,15 @@ Linearize(t) == /\ pend[t].status = "invoked"
 
 \* observed ids -> model ids
 RenSeq(q) == SeqOf({ren[q[i]] : i \in DOMAIN q})
-\* which parts of a response are compared, per RPC (the advisory early-stopping answer is exempt)
+\* What C04 compares per call: the success or error class, and the trials handed out by suggest / add-trial calls
+\* (up to the renaming).  The content of other responses (e.g. the study returned by SetStudyState) is not part of
+\* the property; the final stored state is compared in Final.
 RespOk(c, model, obs) ==
   /\ model.err = obs.err
   /\ IF model.err # None THEN TRUE
      ELSE CASE c.rpc = "SuggestTrials" -> /\ model.val.op.done = obs.val.op.done /\ model.val.op.err = obs.val.op.err
                                           /\ model.val.op.trials = RenSeq(obs.val.op.trials)
-            [] c.rpc = "CreateTrial"   -> model.val.id = ren[obs.val.id] /\ model.val.trial = obs.val.trial
-            [] c.rpc = "CheckEarlyStopping" -> TRUE
-            [] c.rpc \in {"CompleteTrial", "AddMeasurement", "StopTrial", "SetStudyState", "CreateStudy", "UpdateMetadata",
-                          "DeleteTrial", "DeleteStudy"} -> model.val = obs.val
+            [] c.rpc = "CreateTrial"   -> model.val.id = ren[obs.val.id]
             [] OTHER -> TRUE
 
 Return == /\ More /\ Ev.ev = "return" /\ pend[Ev.th].status = "linearized"
